@@ -12,7 +12,7 @@ ORACLE_RULE = ("C06: indicator kind (rotating over " + ", ".join(od.KINDS[ID]) +
 ASSUMPTIONS = ["helper indicator series may be rounded to 4 decimals (they do not inherit round_value); the budget allows max(0.5e-4, 0.5*10^-round_value) per helper series",
                "float noise allowance 1e-10 relative to the input scale on top of the rounding budget",
                "points where the textbook formula is 0/0 (flat high-low window, zero traded volume, zero smoothed |momentum|, zero ATR) are not constrained here (C09 covers them)"]
-PARTIAL = "exact ordered field with abstract rounding. Proved: every single call of all nine indicators, and the WHOLE SERIES of RSI, MACD, STOCH, TSI, ADX, Aroon, VWAP, OBV, ROC on every raw stream (engine, batch run, every append schedule; RSI also on a collapsing timeframe) with true warm-up indices and budgets; C06_FULL_holds. TSI's exact range [-100,100] on stored values needs rounding to be odd (RoundNegLe - true of Python's round, not implied by LawfulPyF). Chained / late-starting inputs: C06_chained_FULL as first written is refuted (bool column) and, with the input None on the first t0 candles, PROVED for RSI and ROC over every candle list holding foreign readings (C06_chained_partial_holds, C06_ROC_inputs_holds). MACD, STOCH (two-start predicate: windows on candle fields, input from t0 + p - 1), TSI likewise, ADX over candle lists holding foreign readings (C06_MACD_/TSI_/ADX_inputs_holds, stoch_inputs). Open: timeframe at the numeric level beyond RSI; IEEE effects"
+PARTIAL = "exact ordered field with abstract rounding. Proved: every single call of all nine indicators, and the WHOLE SERIES of RSI, MACD, STOCH, TSI, ADX, Aroon, VWAP, OBV, ROC on every raw stream (engine, batch run, every append schedule; RSI also on a collapsing timeframe) with true warm-up indices and budgets; C06_FULL_holds. TSI's exact range [-100,100] on stored values needs rounding to be odd (RoundNegLe - true of Python's round, not implied by LawfulPyF). Chained / late-starting inputs: C06_chained_FULL as first written is refuted (bool column) and, with the input None on the first t0 candles, PROVED for RSI and ROC over every candle list holding foreign readings (C06_chained_partial_holds, C06_ROC_inputs_holds). MACD, STOCH (two-start predicate: windows on candle fields, input from t0 + p - 1), TSI likewise, ADX over candle lists holding foreign readings (C06_MACD_/TSI_/ADX_inputs_holds, stoch_inputs). Round 7: the whole-series statements of all nine on EVERY manager (x_series_on_manager / _on_tf / _on_fillHA; ROC on the domain where its reference input is never 0). Open: such managers combined with indicator-valued inputs; IEEE effects"
 _case = od.make_case(ID)
 
 
